@@ -43,6 +43,7 @@ def policy (ty field : String) : Policy :=
   | "ws.webSocket", "closing" => .chanFree
   | "ws.server", "connections" => .lock "connMutex"
   | "ocppj.DefaultClientDispatcher", "paused" => .lock "mutex"
+  | "ocppj.DefaultClientDispatcher", "timerDeadline" => .lock "timerMutex"
   | "ocppj.DefaultClientDispatcher", "requestChannel" => .chanLock "mutex"
   | "ocppj.DefaultServerDispatcher", "requestChannel" => .chanLock "mutex"
   | "ocppj.DefaultServerDispatcher", "running" => .lock "mutex"
